@@ -373,8 +373,8 @@ func checkInventory(c *Ctx, prop string) {
 			}
 			// a reference function of another package that neither performs an effect nor changes any
 			// state (transitively) adds nothing to the surface
-			if kind == "xcall" && e.callee != nil && e.callee.Pkg != nil && baselineFuncs[funcKeyOfSSA(e.callee)] && !changesAnything(m, e.callee) {
-				r.Check(prop+".inventory", "new "+kind+": "+strings.ReplaceAll(rest, "\t", " → ")+" (no effect, no state)", m.Pos(e.pos), true, "a reference function that performs no effect and changes no state")
+			if kind == "xcall" && e.callee != nil && e.callee.Pkg != nil && !changesAnything(m, e.callee) {
+				r.Check(prop+".inventory", "new "+kind+": "+strings.ReplaceAll(rest, "\t", " → ")+" (no effect, no state)", m.Pos(e.pos), true, "the callee performs no effect and changes no state")
 				continue
 			}
 			if why := coveredEntry(kind, rest, e); why != "" {
@@ -565,8 +565,13 @@ func changesAnything(m *Module, f *ssa.Function) bool {
 				if gg, _ := rootGlobal(x.Map); gg != nil {
 					return true
 				}
-			case *ssa.MakeClosure:
-				if fn, ok := x.Fn.(*ssa.Function); ok && !seen[fn] {
+			}
+			// function values mentioned anywhere (literals with or without captured variables, method values)
+			for _, op := range in.Operands(nil) {
+				if op == nil || *op == nil {
+					continue
+				}
+				if fn, ok := (*op).(*ssa.Function); ok && !seen[fn] {
 					seen[fn] = true
 					work = append(work, fn)
 				}
